@@ -213,7 +213,8 @@ impl JobManager {
         Ok(results)
     }
 
-    fn sweep_completed_jobs(&mut self) -> Vec<Job> {
+    /// Removes the jobs that have nothing left to wait for from the table, and returns them.
+    pub fn sweep_completed_jobs(&mut self) -> Vec<Job> {
         let mut completed_jobs = vec![];
 
         let mut i = 0;
